@@ -64,7 +64,11 @@ func init() {
 				w.Step(5, w.Tx(ac, &tstypes.MsgCancelPerpetualOrder{OwnerAddress: ac.S(), OrderId: o.OrderId}))
 			}
 		}
-		g.Free(n-3*seg-20, nil)
+		if c.Job.Index%3 == 1 && !w.Dead {
+			NewChaos(c, w, g).Run(n-3*seg-20, nil)
+		} else {
+			g.Free(n-3*seg-20, nil)
+		}
 		c.Require(w.OkCount["/elys.tradeshield.MsgExecuteOrders"] > 10, "execution requests accepted")
 		c.Require(w.OkCount["/elys.tradeshield.MsgCreateSpotOrder"] > 3 && w.OkCount["/elys.tradeshield.MsgCreatePerpetualOpenOrder"] > 2, "orders of both kinds created")
 	})
